@@ -222,3 +222,79 @@ func VerifHarness_CallTreeOps() {
 		verifAssert(tr.CallTree().Root() == tr.CallTree().FindCall(0), "C07: root is the first call")
 	}
 }
+
+func init() {
+	verifHarnesses["VerifHarness_KeyTreeHistory"] = VerifHarness_KeyTreeHistory
+}
+
+type verifKeyReg struct {
+	slot   uint256.Int
+	off    uint8
+	offArg *uint256.Int
+	tid    common.Hash
+	name   []byte
+}
+
+// VerifHarness_KeyTreeHistory: two top-level registrations with arbitrary (possibly
+// equal) slots, offsets, type ids and names, then a change journal for the second
+// one; both lookups must agree for every registration that reported success.
+func VerifHarness_KeyTreeHistory() {
+	tr := NewTracer()
+	acct := verifAddr("acct")
+	regs := make([]verifKeyReg, 2)
+	for i := range regs {
+		r := &regs[i]
+		r.slot = verifU256("slot")
+		r.off = verifU8("offset")
+		verifAssume(r.off <= 31)
+		if verifBool("hasoffset") {
+			r.offArg = uint256.NewInt(uint64(r.off))
+		} else {
+			r.off = 0
+		}
+		r.tid = verifHash("typeid")
+		r.name = verifBytes("name", 1, 1)
+	}
+	// distinct variables have distinct names; the same name registered twice is a re-registration
+	sameName := regs[0].name[0] == regs[1].name[0]
+	sameKey := regs[0].slot.Eq(&regs[1].slot) && regs[0].off == regs[1].off && regs[0].tid == regs[1].tid
+	if sameName {
+		verifAssume(sameKey)
+	}
+	for i := range regs {
+		r := &regs[i]
+		err := tr.SaveStateKey(acct, nil, &r.slot, r.offArg, r.tid, common.Hash{}, r.name)
+		verifAssert(err == nil, "C11: a top-level registration with offset<=31 succeeds")
+	}
+	verifReach("registered")
+	st := tr.StateChanges()
+	for i := range regs {
+		r := &regs[i]
+		byName := st.FindKeyIndices(acct, string(r.name))
+		bySlot := st.findKey(acct, &r.slot, r.off, r.tid)
+		verifAssert(byName != nil, "C11: a registered key is reachable by name")
+		verifAssert(bySlot != nil, "C11: a registered key is reachable by (slot, offset, type)")
+		verifAssert(byName == bySlot, "C11: both lookups reach the same record")
+	}
+	if sameName {
+		verifReach("re-registered")
+		verifAssert(len(st.roots[acct].childrenIndex) == 1, "C11: re-registering an existing key is idempotent")
+	}
+	// journal a change for the second registration: visible through both lookups
+	val := verifBytes("val", 1, 1)
+	r := &regs[1]
+	err := tr.SaveStateChange(acct, &r.slot, r.offArg, r.tid, val)
+	verifAssert(err == nil, "C11: a change journaled for a registered key is accepted")
+	v1 := st.Variable(acct, string(r.name))
+	v2, err2 := st.Slot(acct, &r.slot, r.offArg, r.tid)
+	verifAssert(err2 == nil && v1 != nil && v1 == v2, "C11: the journaled change is returned by both lookups")
+	// an unregistered key is refused and changes nothing
+	other := verifU256("otherslot")
+	if !other.Eq(&regs[0].slot) && !other.Eq(&regs[1].slot) {
+		verifReach("unregistered")
+		err := tr.SaveStateChange(acct, &other, nil, r.tid, val)
+		verifAssert(err != nil, "C11: a change for an unregistered key is refused")
+		ch, _ := st.Slot(acct, &other, nil, r.tid)
+		verifAssert(ch == nil, "C11: a refused change modifies nothing")
+	}
+}
